@@ -119,27 +119,7 @@ def same_json(a, b):
 
 
 def http_get(sess, eid):
-    """real ViewEventResource.on_get + falcon response rendering -> body text or ('status', code)"""
-    w = sess.w
-    falcon = w.ns.web.falcon
-    import falcon.asgi
-
-    res = w.ns.web.ViewEventResource(w.storage)
-    app = getattr(sess, "_app", None)
-    if app is None:
-        app = falcon.asgi.App()
-        sess._app = app
-    resp = falcon.asgi.Response(options=app.resp_options)
-
-    async def go():
-        try:
-            await res.on_get(None, resp, eid)
-        except falcon.HTTPError as e:
-            return ("status", e.status)
-        body = await resp.render_body()
-        return body.decode("utf8") if isinstance(body, (bytes, bytearray)) else body
-
-    return w.call(go())
+    return sess.w.http_get(eid)
 
 
 def check_frames(raws, viol, cid, label, want_sid=None):
